@@ -53,7 +53,7 @@ func sendStarters(p *Prog, fn *ssa.Function) []ssa.Instruction {
 		} else if c := closureOf(cc.Value); c != nil {
 			cf = c
 		}
-		if cf != nil && p.Analysed(cf) && fnPkgPath(cf) == modPath+"/iscp" && p.reachesCall(cf, 1, "/wire.ClientConn.SendUpstreamChunk") {
+		if cf != nil && p.Analysed(cf) && fnPkgPath(cf) == modPath+"/iscp" && p.reachesCall(cf, 2, "/wire.ClientConn.SendUpstreamChunk") {
 			out = append(out, ins)
 		}
 	})
@@ -298,7 +298,21 @@ func ruleC02R5b(r *Run) {
 		}
 		// only the retransmit site: a function that also builds an UpstreamChunk
 		up := p.Named("/message", "UpstreamChunk")
-		if up == nil || len(literalsOf(fn, up)) == 0 {
+		if up == nil {
+			continue
+		}
+		builds := len(literalsOf(fn, up)) > 0
+		if !builds {
+			// the chunk may be rebuilt in a helper the loop calls
+			allInstrs(fn, func(ins ssa.Instruction) {
+				if c, ok := ins.(*ssa.Call); ok {
+					if cf := c.Call.StaticCallee(); cf != nil && p.Analysed(cf) && len(literalsOf(cf, up)) > 0 {
+						builds = true
+					}
+				}
+			})
+		}
+		if !builds {
 			continue
 		}
 		n++
@@ -450,30 +464,34 @@ func storeKeepsPayload(p *Prog, n *types.Named, depth int) bool {
 		return false
 	}
 	keeps := false
-	allInstrs(fn, func(ins ssa.Instruction) {
-		switch x := ins.(type) {
-		case *ssa.MapUpdate:
-			if canonVal(x.Value) == ssa.Value(groups) {
-				keeps = true
-			}
-		case *ssa.Call:
-			// delegation: inner.Store(ctx, id, seq, groups)
-			if o := calleeObj(&x.Call); o != nil && o.Name() == "Store" {
-				args := x.Call.Args
-				if len(args) > 0 && canonVal(args[len(args)-1]) == ssa.Value(groups) {
-					var inner *types.Named
-					if x.Call.IsInvoke() {
-						return // unknown concrete type behind an interface: not counted
-					}
-					if cf := x.Call.StaticCallee(); cf != nil && cf.Signature.Recv() != nil {
-						inner = namedOf(cf.Signature.Recv().Type())
-					}
-					if inner != nil && storeKeepsPayload(p, inner, depth+1) {
-						keeps = true
+	isGroups := func(v ssa.Value) bool { return canonVal(v) == ssa.Value(groups) || paramOf(v) == groups }
+	// (the method body and the closures it hands to helpers such as x.locked(func(){…}))
+	withAnon(fn, func(f *ssa.Function) {
+		allInstrs(f, func(ins ssa.Instruction) {
+			switch x := ins.(type) {
+			case *ssa.MapUpdate:
+				if isGroups(x.Value) {
+					keeps = true
+				}
+			case *ssa.Call:
+				// delegation: inner.Store(ctx, id, seq, groups)
+				if o := calleeObj(&x.Call); o != nil && o.Name() == "Store" {
+					args := x.Call.Args
+					if len(args) > 0 && isGroups(args[len(args)-1]) {
+						var inner *types.Named
+						if x.Call.IsInvoke() {
+							return // unknown concrete type behind an interface: not counted
+						}
+						if cf := x.Call.StaticCallee(); cf != nil && cf.Signature.Recv() != nil {
+							inner = namedOf(cf.Signature.Recv().Type())
+						}
+						if inner != nil && storeKeepsPayload(p, inner, depth+1) {
+							keeps = true
+						}
 					}
 				}
 			}
-		}
+		})
 	})
 	return keeps
 }
